@@ -232,6 +232,33 @@ def canon(sc, pps, fmt="xml", meta=None):
     return d
 
 
+def _thin_same_ring(a, b, tol):
+    """a polygon that is not expressible at the precision it is written with: rounding every vertex by less than tol
+    makes the ring cross itself or turns it over, and the Polygon constructor (which the reader uses) stores every ring
+    clockwise by its signed area - the vertex list comes back in the opposite order although every written coordinate
+    is within tol.  Excused (compared as the same cycle traversed the other way round) only when the vertex-wise
+    comparison would fail, the read-back is the expected cycle reversed within tol, and the ring as read back is not a
+    valid simple polygon of the expected orientation."""
+    try:
+        from shapely.geometry import Polygon as SP
+        va, vb = a["v"], b["v"]
+        n = len(va)
+        if n != len(vb) or n < 3:
+            return False
+
+        def close(p, q):
+            return all(abs(x - y) < tol + 1e-12 * max(abs(x), abs(y)) for x, y in zip(p, q))
+        if all(close(p, q) for p, q in zip(va, vb)):
+            return False                   # nothing to excuse: the ordinary comparison runs (and passes)
+        rev = vb[::-1]
+        if not any(all(close(va[i], rev[(i + k) % n]) for i in range(n)) for k in range(n)):
+            return False                   # not the same cycle backwards: the ordinary comparison runs (and fails)
+        pa, pb = SP(va), SP(rev)
+        return bool(not pb.is_valid or pb.exterior.is_ccw != pa.exterior.is_ccw)
+    except Exception:  # noqa - anything odd: the ordinary comparison decides
+        return False
+
+
 def compare(a, b, tol, path="", out=None, limit=12):
     """paths where two canonical values differ; reals compared with |x-y| < tol (relative slack 1e-12)"""
     out = [] if out is None else out
@@ -248,6 +275,8 @@ def compare(a, b, tol, path="", out=None, limit=12):
         return out
     if type(a) is not type(b):
         out.append(f"{path}: {str(a)[:70]} != {str(b)[:70]}")
+        return out
+    if isinstance(a, dict) and a.get("k") == "poly" and b.get("k") == "poly" and tol > 0 and _thin_same_ring(a, b, tol):
         return out
     if isinstance(a, dict):
         for k in sorted(set(a) | set(b), key=str):
